@@ -6,6 +6,8 @@ package c07
 
 import (
 	"crypto/tls"
+	"github.com/caddyserver/caddy/v2"
+	"io"
 
 	"github.com/mholt/caddy-l4/layer4"
 	"github.com/mholt/caddy-l4/modules/l4tls"
@@ -95,6 +97,11 @@ func VH_alpn() {
 	}
 	vapi.Cover("accepted by crypto/tls")
 	m := l4tls.MatchALPN{"h2", "x"}
+	if vapi.Param("EMPTYCFG", 0) == 1 {
+		// a configured value that is (or resolves to) the empty string is simply a value no client
+		// offers (crypto/tls rejects hellos with empty protocol names); the others still count
+		m = l4tls.MatchALPN{"", "h2", "{env.VERIF_C07_UNSET}", "x"}
+	}
 	got := m.Match(std)
 	want := false
 	for _, p := range std.SupportedProtos {
@@ -106,6 +113,42 @@ func VH_alpn() {
 		vapi.Cover("alpn matches")
 	}
 	vapi.Assert(got == want, "alpn matcher verdict differs from exact membership in the protocols the server sees")
+}
+
+// sniHello builds a complete TLS record holding a ClientHello whose only extension is server_name.
+func sniHello(name string) []byte {
+	ext := []byte{0, 0, 0, byte(len(name) + 5), 0, byte(len(name) + 3), 0, 0, byte(len(name))}
+	ext = append(ext, name...)
+	b := []byte{3, 3}
+	b = append(b, make([]byte, 32)...)
+	b = append(b, 0, 0, 2, 0x13, 0x01, 1, 0, 0, byte(len(ext)))
+	b = append(b, ext...)
+	h := append([]byte{1, 0, 0, byte(len(b))}, b...)
+	return append([]byte{0x16, 3, 1, 0, byte(len(h))}, h...)
+}
+
+// VH_two_hellos: two ClientHellos are matched on one connection (TLS inside TLS: the
+// tls handler terminates the outer session, a tls matcher then looks at the inner
+// handshake): each evaluation reads the hello that is on the wire at that moment.
+func VH_two_hellos() {
+	names := []string{"outer.example", "in.example", "x"}
+	n1, n2 := names[vapi.Choice("first", 3)], names[vapi.Choice("second", 3)]
+	first, second := sniHello(n1), sniHello(n2)
+	m := l4tls.VerifNewMatchTLS()
+	cx, _ := env.MatchingConn(append(append([]byte{}, first...), second...), false)
+	ok, err := layer4.MatcherSet{m}.Match(cx)
+	vapi.Assert(ok && err == nil, "a well-formed hello was not matched")
+	repl := cx.Context.Value(layer4.ReplacerCtxKey).(*caddy.Replacer)
+	v, _ := repl.Get("l4.tls.server_name")
+	vapi.Assert(v == n1, "server name placeholder wrong after the first hello")
+	// the handler consumes the outer hello; the inner one is what is on the wire now
+	n, _ := io.ReadFull(cx, make([]byte, len(first)))
+	vapi.Assert(n == len(first), "could not consume the first hello")
+	ok, err = layer4.MatcherSet{m}.Match(cx)
+	vapi.Cover("second hello matched")
+	vapi.Assert(ok && err == nil, "the second well-formed hello was not matched")
+	v, _ = repl.Get("l4.tls.server_name")
+	vapi.Assert(v == n2, "the second evaluation was judged by the first hello (server name placeholder is stale)")
 }
 
 // VH_record: a record that is not a TLS handshake never matches; a hello that
@@ -140,5 +183,6 @@ func VH_record() {
 func init() {
 	vapi.Register("c07.VH_record", VH_record)
 	vapi.Register("c07.VH_alpn", VH_alpn)
+	vapi.Register("c07.VH_two_hellos", VH_two_hellos)
 	vapi.Register("c07.VH_parse", VH_parse)
 }
